@@ -8,7 +8,7 @@
     lr.Parser.Parse / ParseAndBuildAST, for every grammar, table and input. *)
 From Coq Require Import List ZArith.
 From Algo.Grammar Require Import CFG.
-From Algo.C11 Require Import Model ModelPrec ModelSLR ModelLR1 Spec Proofs ProofsTerm ProofsOracle ProofsPrec ProofsPrecExpr ProofsLR0 ProofsSLR ProofsCLR ProofsLALR.
+From Algo.C11 Require Import Model ModelPrec ModelSLR ModelLR1 Spec Proofs ProofsTerm ProofsOracle ProofsPrec ProofsPrecExpr ProofsLR0 ProofsSLR ProofsCLR ProofsLALR ProofsChain.
 Import ListNotations.
 
 (** Callbacks.  [Parse(tokenF, prodF)] takes two optional callbacks (either may be nil) and
@@ -301,6 +301,19 @@ Proof.
   destruct (C11_driver_sound G tbl lbl f w evs OK Hp) as [H1 [H2 [_ [_ [H3 H4]]]]]. auto.
 Qed.
 
+(** The chain, on the modelled constructions and without precedence declarations.
+    LALR conflict-free implies canonical LR(1) conflict-free, for every grammar and fuel: the
+    actions an LR(1) state enters into a cell are entered by its merged class into the same cell
+    (up to the shift target), so a conflict in a member is a conflict in the class. *)
+Theorem C11_lalr_ok_implies_clr_ok :
+  forall (G : gram) (fuel : nat) (t : table),
+    build_lalr fuel G [] = BuiltOk t -> exists t', build_clr fuel G [] = BuiltOk t'.
+Proof.
+  intros G fuel t H. destruct (canonical1 fuel G) as [C|] eqn:EC.
+  - exact (lalr_ok_clr_ok G fuel C EC t H).
+  - unfold build_lalr, finish, lalr_raw in H. rewrite EC in H. discriminate.
+Qed.
+
 (** Witness checker for long sentences: a production sequence accepted by [lm_check] is a
     leftmost derivation of the string. *)
 Theorem C11_witness_sound :
@@ -381,4 +394,5 @@ Print Assumptions C11_clr_construction_ok.
 Print Assumptions C11_clr_parser_sound.
 Print Assumptions C11_lalr_construction_ok.
 Print Assumptions C11_lalr_parser_sound.
+Print Assumptions C11_lalr_ok_implies_clr_ok.
 Print Assumptions C11_d11a_unrepaired_table_refuted.
